@@ -75,6 +75,18 @@ def _get_options_from_ini(ini_path, target):
         return None
 
 
+def _ini_int(ini_options, name):
+    """Integer option of a .bandit file (all ini values are strings)."""
+    value = ini_options.get(name)
+    if not value:
+        return None
+    try:
+        return int(value) or None
+    except ValueError:
+        LOG.error("Option %s of the .bandit file must be an integer", name)
+        sys.exit(2)
+
+
 def _init_extensions():
     from bandit.core import extension_loader as ext_loader
 
@@ -521,7 +533,7 @@ def main():
         args.context_lines = _log_option_source(
             parser.get_default("context_lines"),
             args.context_lines,
-            int(ini_options.get("number") or 0) or None,
+            _ini_int(ini_options, "number"),
             "max code lines output for issue",
         )
 
@@ -535,14 +547,14 @@ def main():
         args.severity = _log_option_source(
             parser.get_default("severity"),
             args.severity,
-            ini_options.get("level"),
+            _ini_int(ini_options, "level"),
             "severity level",
         )
 
         args.confidence = _log_option_source(
             parser.get_default("confidence"),
             args.confidence,
-            ini_options.get("confidence"),
+            _ini_int(ini_options, "confidence"),
             "confidence level",
         )
 
